@@ -44,6 +44,7 @@ fn main() {
                 line.clear();
             }
         }
+        Some("asstr") => asstr(&args[1..]),
         Some("jobs") => jobs(&args[1..]),
         _ => {
             eprintln!("usage: c19 jobs … | c19 interner <jitter>");
@@ -54,6 +55,8 @@ fn main() {
 
 fn jobs(args: &[String]) {
     let (mut timeout, mut jitter, mut dump) = (120u64, 1u64, None);
+    // --noref 1: no in-process reference (the caller compares with solo runs in FRESH processes); every J line carries the digest
+    let mut noref = false;
     let mut paths: Vec<String> = vec![];
     let mut threads: Vec<Vec<usize>> = vec![];
     let mut i = 0;
@@ -62,6 +65,7 @@ fn jobs(args: &[String]) {
             "--timeout" => timeout = args[i + 1].parse().unwrap(),
             "--jitter" => jitter = args[i + 1].parse().unwrap(),
             "--dump" => dump = Some(args[i + 1].clone()),
+            "--noref" => noref = args[i + 1] == "1",
             "--paths" => paths = args[i + 1].split(',').map(|s| s.to_string()).collect(),
             "--thread" => threads.push(args[i + 1].split(',').filter_map(|s| s.parse().ok()).collect()),
             _ => {}
@@ -75,6 +79,9 @@ fn jobs(args: &[String]) {
     used.dedup();
     let mut refs: Vec<Option<Art>> = vec![None; paths.len()];
     for &u in &used {
+        if noref {
+            continue;
+        }
         if let Some(Some(s)) = srcs.get(u) {
             let a = compile_all(s, Some(paths[u].clone().into()), 32);
             println!("\n@@REF\t{u}\t{}\t{}\t{}\t{}", paths[u], a.status, a.nontrivial() as u8, a.digest());
@@ -98,16 +105,34 @@ fn jobs(args: &[String]) {
                 let z = (jitter.wrapping_add(t as u64 * 977)).wrapping_mul(0x9E3779B97F4A7C15);
                 std::thread::sleep(Duration::from_micros((z >> 54) % 700));
                 for (j, &u) in list.iter().enumerate() {
-                    let (Some(Some(src)), Some(Some(r))) = (srcs.get(u), refs.get(u)) else { continue };
+                    let Some(Some(src)) = srcs.get(u) else { continue };
                     let a = compile_all(src, Some(paths[u].clone().into()), 32);
-                    let d = diff_fields(r, &a);
-                    if !d.is_empty() {
-                        if let Some(dir) = &dump {
-                            r.dump(dir, &format!("ref.{u}"));
-                            a.dump(dir, &format!("t{t}.j{j}.{u}"));
+                    let (same, d) = match refs.get(u) {
+                        Some(Some(r)) => {
+                            let d = diff_fields(r, &a);
+                            if !d.is_empty() {
+                                if let Some(dir) = &dump {
+                                    r.dump(dir, &format!("ref.{u}"));
+                                    a.dump(dir, &format!("t{t}.j{j}.{u}"));
+                                }
+                            }
+                            (if d.is_empty() { "1" } else { "0" }, d)
                         }
-                    }
-                    lines.push(format!("\n@@J\t{t}\t{j}\t{}\t{}\t{}\t{}", paths[u], d.is_empty() as u8, a.status, d.join(",")));
+                        _ => {
+                            if let Some(dir) = &dump {
+                                a.dump(dir, &format!("t{t}.j{j}.{u}"));
+                            }
+                            ("-", vec![])
+                        }
+                    };
+                    lines.push(format!(
+                        "\n@@J\t{t}\t{j}\t{}\t{same}\t{}\t{}\t{}\t{}",
+                        paths[u],
+                        a.status,
+                        d.join(","),
+                        a.nontrivial() as u8,
+                        a.digest()
+                    ));
                 }
                 let _ = tx.send((t, lines));
             })
@@ -141,4 +166,57 @@ fn jobs(args: &[String]) {
         }
     }
     println!("\n@@DONE\t{k}");
+}
+
+/// F8 probe: `Symbol::as_str` hands out a `&str` into the interner's single growing buffer with the lifetime erased.
+/// Each reader thread interns a name, keeps the slice (exactly what the compiler does with `sym.as_str()`), lets the
+/// other threads intern fresh strings (the buffer reallocates), and then checks whether the slice still points at the text.
+/// Prints `@@ASSTR checks stale first`: stale = the slice's address no longer holds the symbol's text (buffer moved).
+fn asstr(args: &[String]) {
+    use mimium_lang::interner::ToSymbol;
+    let k: usize = args.first().and_then(|s| s.parse().ok()).unwrap_or(4);
+    let rounds: usize = args.get(1).and_then(|s| s.parse().ok()).unwrap_or(200);
+    let barrier = std::sync::Arc::new(std::sync::Barrier::new(k));
+    let hs: Vec<_> = (0..k)
+        .map(|t| {
+            let b = barrier.clone();
+            std::thread::spawn(move || {
+                let (mut checks, mut stale, mut first) = (0u64, 0u64, String::new());
+                b.wait();
+                for r in 0..rounds {
+                    let name = format!("module_name_{t}_{r}");
+                    let sym = name.to_symbol();
+                    let slice: &str = sym.as_str();
+                    // what other compilations do meanwhile: intern new identifiers
+                    for j in 0..50 {
+                        let _ = format!("ident_{t}_{r}_{j}_padding_padding_padding").to_symbol();
+                    }
+                    std::thread::yield_now();
+                    checks += 1;
+                    // do NOT read through `slice` (it may dangle: that would be the use-after-free itself, observed to
+                    // SIGSEGV); compare its address with where the same symbol's text lives now
+                    let (old, len) = (slice.as_ptr() as usize, slice.len());
+                    let again = sym.as_str();
+                    if again.as_ptr() as usize != old {
+                        stale += 1;
+                        if first.is_empty() {
+                            first = format!("slice of {name:?} (len {len}) taken at {old:#x}, text now lives at {:#x}", again.as_ptr() as usize);
+                        }
+                    }
+                }
+                (checks, stale, first)
+            })
+        })
+        .collect();
+    let (mut c, mut s, mut f) = (0, 0, String::new());
+    for h in hs {
+        if let Ok((a, b, x)) = h.join() {
+            c += a;
+            s += b;
+            if f.is_empty() {
+                f = x;
+            }
+        }
+    }
+    println!("\n@@ASSTR\t{c}\t{s}\t{f}");
 }
